@@ -56,3 +56,14 @@ O("C08.fixup.allsec", "C08", "h_C08.c", "h_C08_fixup_allsec",
 O("C08.order", ["C08", "C20"], "h_C08.c", "h_C08_order",
   "echs_instant_lt_p / le_p are the chronological order on valid instants; all-day before timed values of the same day",
   ["echs_instant_lt_p", "echs_instant_le_p"])
+
+O("C08.add.walk", "C08", "h_C08.c", "h_C08_add_walk",
+  "echs_instant_add: for every valid base and every duration within +-80000 days the result is a real date whose day number is the base's plus the day count (inductive loop contracts on both month walks, termination by decreases)",
+  ["echs_instant_add"], dfcc=True, loop_contracts=True, replace=["__get_mdays"],
+  replace_status={"__get_mdays": "discharged by C08.kernels"},
+  solver=["minisat", "kissat"], timeout={"quick": 600, "thorough": 1800},
+  assumptions=["C division identity add.d == (add.d/86400000)*86400000 + add.d%86400000 connects the pair form (ghost dd0, msd0) to the 64-bit duration; not machine-checked (wide division, R1)"])
+O("C08.add.tod", "C08", "h_C08.c", "h_C08_add_tod",
+  "echs_instant_add: the time of day of the result is the base's plus the sub-day part of the duration, digit by digit in carry form, carrying at most one day",
+  ["echs_instant_add"], dfcc=True, loop_contracts=True, replace=["__get_mdays"],
+  solver=["minisat", "kissat", "z3"], timeout={"quick": 600, "thorough": 1800})
